@@ -307,7 +307,10 @@ impl FileTimeMatcher {
                 e.duration()
             }
         };
-        let age_in_seconds: i64 = age.as_secs() as i64 * if is_negative { -1 } else { 1 };
+        // Whole days first (as unsigned numbers: an age of 2^63 seconds or more does not fit
+        // an i64 and would wrap to a negative value), then the sign.
+        let whole_days = (age.as_secs() / SECONDS_PER_DAY as u64) as i64;
+        let age_in_days_unshifted = if is_negative { -whole_days } else { whole_days };
 
         // rust division truncates towards zero (see
         // https://github.com/rust-lang/rust/blob/master/src/libcore/ops.rs#L580 )
@@ -322,7 +325,7 @@ impl FileTimeMatcher {
             0
         };
 
-        let age_in_days = age_in_seconds / SECONDS_PER_DAY + negative_offset;
+        let age_in_days = age_in_days_unshifted + negative_offset;
         Ok(self.days.imatches(age_in_days))
     }
 
@@ -376,8 +379,13 @@ impl FileAgeRangeMatcher {
                 e.duration()
             }
         };
-        let age_in_seconds: i64 = age.as_secs() as i64 * if is_negative { -1 } else { 1 };
-        let age_in_minutes = age_in_seconds / 60 + if is_negative { -1 } else { 0 };
+        // (whole minutes as an unsigned number first: see FileTimeMatcher)
+        let whole_minutes = (age.as_secs() / 60) as i64;
+        let age_in_minutes = if is_negative {
+            -whole_minutes - 1
+        } else {
+            whole_minutes
+        };
         Ok(self.minutes.imatches(age_in_minutes))
     }
 
